@@ -172,7 +172,8 @@ def run(ctx):
         x[a:a + 5] += nprng.choice([5.0, -6.0])
         return pd.DataFrame(np.round(x, 3), columns=[f"v{j}" for j in range(p)])
 
-    pool = {p: [dataset(int(nprng.integers(24, 44)), p) for _ in range(4)] for p in (1, 2)}
+    # pairs of series share their length (and index): a stale cache keyed on shape or index cannot hide
+    pool = {p: [dataset(nn, p) for nn in (30, 30, 38, 38)] for p in (1, 2)}
     # data ids: 0..3 -> p = 1, 4..7 -> p = 2
     DATA = pool[1] + pool[2]
     frozen = [d.copy(deep=True) for d in DATA]
@@ -397,3 +398,58 @@ def run(ctx):
     bad = coq_bad_cases(ctx.cid, HEADER, "hist_case", "hist_ok", cases, shard=60)
     for i in bad[:10]:
         ctx.mismatch("the Python twin of Model/Objects.step disagrees with the Coq model on this history", meta[i], {"what": "twin-vs-model"})
+    wrapper_stream(ctx, DATA)
+
+
+def wrapper_stream(ctx, DATA):
+    """Adapters (ChangeScore / Saving / LocalAnomalyScore) held by the user and SHARING their inner cost object with each other and with
+    a detector: whatever happened before, `w.fit(X)` followed at once by `w.evaluate(cuts)` must give the values of a fresh adapter
+    fitted on X (fit is a full refit of everything the adapter reads)."""
+    from skchange.anomaly_scores import LocalAnomalyScore, Saving
+    from skchange.change_detectors import PELT
+    from skchange.change_scores import ChangeScore
+    from skchange.costs import GaussianCovCost, GaussianVarCost, L2Cost
+    rng = ctx.rng
+    arrays = [d.to_numpy().copy() for d in DATA]          # the SAME ndarray / DataFrame objects are passed again and again
+    frozen = [a.copy() for a in arrays]
+    cuts = {"cs": np.asarray([[0, 6, 14], [3, 9, 20]]), "las": np.asarray([[0, 4, 10, 16], [2, 8, 12, 22]]), "sav": np.asarray([[0, 9], [5, 21]])}
+    for h in range(ctx.n(40, 400)):
+        costK = rng.choice([L2Cost, GaussianVarCost, GaussianCovCost])
+        c0 = costK()
+        base = costK(0.5) if costK is L2Cost else costK((0.5, 2.0))
+        W = [("cs", ChangeScore(c0), lambda: ChangeScore(costK())), ("cs", ChangeScore(c0), lambda: ChangeScore(costK())),
+             ("las", LocalAnomalyScore(c0), lambda: LocalAnomalyScore(costK())),
+             ("sav", Saving(base), lambda: Saving(costK(0.5) if costK is L2Cost else costK((0.5, 2.0))))]
+        det = PELT(cost=c0, min_segment_length=2)
+        hist = []
+        for step in range(rng.randint(4, 14)):
+            k = rng.randrange(8)
+            use_array = rng.random() < 0.5
+            X = arrays[k] if use_array else DATA[k]
+            r = rng.random()
+            inp = {"cost": costK.__name__, "history": hist}
+            try:
+                if r < 0.2:
+                    hist.append(f"PELT(cost=c0).fit_predict(D{k})")
+                    det.fit(X).predict(X)
+                elif r < 0.3:
+                    hist.append(f"c0.fit(D{k})")
+                    c0.fit(X)
+                else:
+                    kind, w, mkfresh = W[rng.randrange(len(W))]
+                    hist.append(f"{kind}.fit({'array' if use_array else 'frame'} D{k}); evaluate")
+                    got = w.fit(X).evaluate(cuts[kind])
+                    want = mkfresh().fit(np.asarray(frozen[k])).evaluate(cuts[kind])
+                    ctx.case({"wrap": h, "i": step}, nontrivial=len(hist) > 1)
+                    ctx.count("wrapper_op", kind)
+                    if [float(v).hex() for v in got.reshape(-1)] != [float(v).hex() for v in want.reshape(-1)]:
+                        ctx.violation(f"{type(w).__name__}({costK.__name__}).fit(D{k}) followed at once by evaluate differs from a fresh adapter fitted on D{k} "
+                                      f"after the history {hist}", dict(inp, got=got.tolist(), fresh=want.tolist()),
+                                      {"what": "history-dependence", "entry": "adapter-evaluate-after-fit", "adapter": type(w).__name__})
+                        break
+            except Exception as ex:
+                ctx.violation(f"adapter history step {hist[-1]} raised {type(ex).__name__}: {str(ex)[:120]}", inp, {"what": "exception", "op": "wrapper", "cls": type(ex).__name__})
+                break
+        if any(not np.array_equal(a, b) for a, b in zip(arrays, frozen)):
+            ctx.violation("a caller's ndarray was modified in place by an adapter / detector history", {"history": hist}, {"what": "caller-data-modified"})
+            arrays[:] = [a.copy() for a in frozen]
